@@ -8,7 +8,7 @@ PID = "C04"
 RULE = ("shapes of every kind (triangles, non-convex polygons, holes, several components, unbounded, Empty) with "
         "int/Fraction/float coordinates, plus a curved stream (circles, quadratic and cubic boundaries) x exponent "
         "pairs a+b <= 6 (thorough: <= 10); observables IntegrateShape.polynomial/area, float(S), "
-        "IntegrateJordan.vertical/area; non-trivial = not an axis-parallel rectangle centred at the origin; "
+        "IntegrateJordan.vertical/area; exact polygons are integrated, moved / scaled in place and integrated again; non-trivial = not an axis-parallel rectangle centred at the origin; "
         "distinct = SHA-1 of the case")
 PROOF_STATUS = ("Props/C04.v: moment = moment_spec (formal trapezoid integrals) for all polygonal shapes of all kinds, "
                 "a+b <= 14; Newton-Cotes exactness up to 19 nodes; area = shoelace; reversal negates")
@@ -95,6 +95,23 @@ def check(ctx, case):
         ok = ri[0] == "ok" and (ri[1] == spec if tol == 0 else abs(ri[1] - spec) <= tol * max(abs(spec), 1))
         if not ok:
             fails.append(Fail(kind="O", what="curved: polynomial(S,a,b) off the exact integral", impl=ri, expected=spec))
+    if not curved and exact and not fails:
+        # the SAME object, integrated, moved / scaled in place, integrated again: the integral of where it is now
+        v, k = (F(5), F(-2)), (F(3, 2), F(2))
+        for name, act, f in (("move", lambda: S.move(v[0], v[1]), lambda p: (p[0] + v[0], p[1] + v[1])),
+                             ("scale", lambda: S.scale(k[0], k[1]), lambda p: (p[0] * k[0], p[1] * k[1]))):
+            r = I.outcome(act)
+            if r[0] != "ok":
+                break
+            sex = U.map_shape(sex, f)
+            rn = I.outcome(lambda: I.num(I.IntegrateShape.polynomial(S, a, b)))
+            want = O.moment_shape(sex, a, b)
+            if rn != ("ok", want):
+                fails.append(Fail(kind="O", what="after %s() of an object that had been integrated, polynomial(S,a,b) is not the integral over its new place" % name,
+                                  impl=rn, expected=want))
+                break
+        S = I.mk_shape(s, num)
+        sex = s
     if a == 0 and b == 0:
         r2 = I.outcome(lambda: I.num(I.IntegrateShape.area(S)))
         r3 = I.outcome(lambda: F(float(S)))
